@@ -53,4 +53,4 @@ if __name__ == '__main__':
         functions=corpus.ALLOC_FUNCS + corpus.INV_FUNCS,
         assumptions=['pre-state: standard world of checks/corpus.py under '
                      'its stated invariant', 'see C01 assumptions'],
-        quick_budget=420, thorough_budget=1700))
+        quick_budget=420, thorough_budget=2400))
